@@ -1,18 +1,24 @@
 import IbModel.Util.Wire
-import IbModel.Util.Sha256
 import IbModel.Model.Checkpoint
+import IbModel.Model.CheckpointSha
 import IbModel.Generated.Tables
 /-!
 Driver handlers for C12 (checkpoint store). All strings / names travel as lower-case hex of their bytes.
 
 * `CKPT-ENC <fields>`                              ↦ `OK <hex encode> | <load answer>`
 * `CKPT-DEC <hex|->`                               ↦ `OK <fields>` | `ERR <class>` | `PANIC` | `ABORT`
-* `CKPT-SAVE max=<none|n> pid=<hex> ts=<n> dir=<names>` ↦ `OK <names>`
+* `CKPT-SAVE max=<none|n> c=<T|F> dir=<entries> <fields>` ↦ `OK <entries>`   (entries = `<name>` or, with `c=T`,
+                                                       `<name>:<hex content>`: the model's file system holds the real bytes)
+* `CKPT-SAVE-TIE max= pid= ts= dir=<names>`        ↦ `OK own=<count of own files left> other=<names of the rest>`
+* `CKPT-SLL max=<none|n> dir=<entries with content> <fields>` ↦ `OK latest=none` | `OK latest=<name> | <load answer>`
+                                                       (save ; find_latest ; read ; load composed in the model)
 * `CKPT-LATEST en=<T|F> pid=<hex> dir=<names>`     ↦ `SOME <name>` | `NONE`
+* `CKPT-LATEST-TIE en= pid= dir=<names>`           ↦ `STAMP <t>` | `NONE`
 * `CKPT-CLEAR pid=<hex> dir=<names>`               ↦ `OK <names>`
 * `CKPT-POLICY en=<T|F> pol=<barrier|every:n|time:s|hybrid:<T|F>:s> idx=<n> barrier=<T|F> last=<none|ago:s|future:s>` ↦ `T` | `F`
 
-The hash parameter `H` of the model is instantiated with `IB.Sha256.sha256Hex`; the decode limit with the
+The hash parameter `H` of the model is instantiated with `IB.Checkpoint.Sha.sha256Hex` (the function
+`roundtrip_every_unicode_state_sha256` / `one_hash_satisfies_all_hypotheses` of `Props/C12.lean` are about); the decode limit with the
 constant printed from the running code (`IB.Generated.ckptDecodeLimit`).
 -/
 namespace IB.D12
@@ -28,7 +34,7 @@ def hexOf (b : Bytes) : String := bytesToHex (ofBytes b)
     satisfy any request up to that limit (nothing larger is ever requested: `load_never_crashes`) -/
 def cfgNow : Cfg := { limit := some IB.Generated.ckptDecodeLimit, mem := IB.Generated.ckptDecodeLimit }
 
-def H : Bytes → Bytes := IB.Sha256.sha256Hex
+def H : Bytes → Bytes := IB.Checkpoint.Sha.sha256Hex
 
 def fields (s : State) : String :=
   s!"pid={hexOf s.pipelineId} idx={s.completedNodeIndex} ts={s.timestamp} pc={s.partitionCount} " ++
@@ -98,7 +104,37 @@ def fsOf (ns : List Name) : FS := ns.map (fun n => (n, []))
 def max? (s : String) : Option (Option Nat) :=
   if s == "none" then some none else (parseNat? s).map some
 
+def bool? (s : String) : Option Bool :=
+  if s == "T" then some true else if s == "F" then some false else none
+
+/-- `<hex name>` (content empty) or `<hex name>:<hex content>` -/
+def entry? (withContent : Bool) (s : String) : Option (Name × Bytes) :=
+  match s.splitOn ":" with
+  | [n] => if withContent then none else (hex? n).map fun nm => (nm, [])
+  | [n, c] => if withContent then do pure ((← hex? n), (← hex? c)) else none
+  | _ => none
+
+def dir? (withContent : Bool) (s : String) : Option FS :=
+  if s == "-" then some [] else (s.splitOn ",").mapM (entry? withContent)
+
+def sortFS (fs : FS) : FS := fs.mergeSort (fun a b => bytesLe a.1 b.1)
+
+def dirOut (withContent : Bool) (fs : FS) : String :=
+  if fs.isEmpty then "-"
+  else ",".intercalate ((sortFS fs).map fun f => if withContent then s!"{hexOf f.1}:{hexOf f.2}" else hexOf f.1)
+
 def handleSave (args : List String) : String :=
+  if args.length != 12 then "BAD-OP" else
+  match (kv? "max" args) >>= max?, (kv? "c" args) >>= bool? with
+  | some max, some wc =>
+    match (kv? "dir" args) >>= dir? wc, state? args with
+    | some fs, some st => "OK " ++ dirOut wc (save max fs st)
+    | _, _ => "BAD-OP"
+  | _, _ => "BAD-OP"
+
+/-- two spellings of one stamp present: which one survives depends on the listing order, so only the
+    order-independent facts are answered -/
+def handleSaveTie (args : List String) : String :=
   if args.length != 4 then "BAD-OP" else
   match (kv? "max" args) >>= max?, (kv? "pid" args) >>= hex?, (kv? "ts" args) >>= parseNat?,
         (kv? "dir" args) >>= names? with
@@ -107,11 +143,23 @@ def handleSave (args : List String) : String :=
     let st : State := { pipelineId := pid, completedNodeIndex := 1, timestamp := ts, partitionCount := 1,
                         checksum := [], execMode := [],
                         metadata := { totalNodes := 3, lastNodeType := [], progressPercent := 33 } }
-    "OK " ++ namesOut (sortNames (names (save max (fsOf dir) st)))
+    let after := names (save max (fsOf dir) st)
+    s!"OK own={(after.filter (isOwn pid)).length} other={namesOut (sortNames (after.filter (fun n => !isOwn pid n)))}"
   | _, _, _, _ => "BAD-OP"
 
-def bool? (s : String) : Option Bool :=
-  if s == "T" then some true else if s == "F" then some false else none
+/-- `save_checkpoint` ; `find_latest_checkpoint` ; `File::open`+`read_to_end` ; `load_checkpoint` -/
+def handleSll (args : List String) : String :=
+  if args.length != 11 then "BAD-OP" else
+  match (kv? "max" args) >>= max?, (kv? "dir" args) >>= dir? true, state? args with
+  | some max, some fs, some st =>
+    let fs1 := save max fs st
+    match latest true st.pipelineId fs1 with
+    | none => "OK latest=none"
+    | some n =>
+      match read fs1 n with
+      | none => "ERR io"
+      | some b => s!"OK latest={hexOf n} | {loadAnswer b}"
+  | _, _, _ => "BAD-OP"
 
 def handleLatest (args : List String) : String :=
   if args.length != 3 then "BAD-OP" else
@@ -119,6 +167,17 @@ def handleLatest (args : List String) : String :=
   | some en, some pid, some dir =>
     match latest en pid (fsOf dir) with
     | some n => "SOME " ++ hexOf n
+    | none => "NONE"
+  | _, _, _ => "BAD-OP"
+
+def handleLatestTie (args : List String) : String :=
+  if args.length != 3 then "BAD-OP" else
+  match (kv? "en" args) >>= bool?, (kv? "pid" args) >>= hex?, (kv? "dir" args) >>= names? with
+  | some en, some pid, some dir =>
+    match latest en pid (fsOf dir) with
+    | some n => match fileStamp (pfx pid) n with
+      | some t => s!"STAMP {t}"
+      | none => "FOREIGN " ++ hexOf n
     | none => "NONE"
   | _, _, _ => "BAD-OP"
 
@@ -154,7 +213,8 @@ def handlePolicy (args : List String) : String :=
   | _, _, _, _, _ => "BAD-OP"
 
 def handlers : List (String × (List String → String)) :=
-  [("CKPT-ENC", handleEnc), ("CKPT-DEC", handleDec), ("CKPT-SAVE", handleSave),
-   ("CKPT-LATEST", handleLatest), ("CKPT-CLEAR", handleClear), ("CKPT-POLICY", handlePolicy)]
+  [("CKPT-ENC", handleEnc), ("CKPT-DEC", handleDec), ("CKPT-SAVE", handleSave), ("CKPT-SAVE-TIE", handleSaveTie),
+   ("CKPT-SLL", handleSll), ("CKPT-LATEST", handleLatest), ("CKPT-LATEST-TIE", handleLatestTie),
+   ("CKPT-CLEAR", handleClear), ("CKPT-POLICY", handlePolicy)]
 
 end IB.D12
